@@ -59,6 +59,10 @@ REQUIRED = [
     "TopSearch.Props.C19.C19_original_removes_isolated",
     "TopSearch.Props.C19.C19_update_cycle",
     "TopSearch.Props.C19.C19_lowest_point",
+    "TopSearch.Props.C19.C19_bridge_counts",
+    "TopSearch.Props.C19.C19_read_data",
+    "TopSearch.Props.C19.C19_read_then_dedup",
+    "TopSearch.Props.C19.C19_read_data_needs_counts",
 ]
 RULE = ("cases = (dataset state, operation) transitions compared model-vs-implementation after the operation "
         "(exact stream: bit-for-bit; transform / update-cycle streams: 1e-9 relative to the column scale, every "
@@ -111,6 +115,24 @@ def make_md(T: np.ndarray, R: np.ndarray):
     os.remove(tf)
     os.remove(rf)
     return md
+
+
+def reload_md(md, T, R) -> None:
+    """`read_data` on an object that already holds a dataset (the example scripts loop read -> subset -> de-duplicate
+    -> normalise over feature subsets on ONE object)"""
+    import os
+    k = next(_counter)
+    tf, rf = f"c19_train_{k}.txt", f"c19_resp_{k}.txt"
+    T = np.asarray(T, dtype=float)
+    np.savetxt(tf, T.reshape(len(T), -1), fmt="%.17g")
+    np.savetxt(rf, np.asarray(R, dtype=float), fmt="%.17g")
+    try:
+        with warnings.catch_warnings():
+            warnings.simplefilter("ignore")
+            md.read_data(tf, rf)
+    finally:
+        os.remove(tf)
+        os.remove(rf)
 
 
 @contextlib.contextmanager
@@ -350,6 +372,12 @@ class Session:
                     self._grow_scale(a[0], a[1])
                     md.append_data(np.array(a[0], dtype=float), np.array(a[1], dtype=float))
                     line = f"append {ftab(a[0])} {fvec(a[1])}"
+                elif kind == "reload":
+                    t2 = np.array(a[0], dtype=float)
+                    reload_md(md, t2, a[1])
+                    self.scale_t = [float(np.max(np.abs(t2[:, j]))) for j in range(t2.shape[1])]
+                    self.scale_r = max(self.scale_r, float(np.max(np.abs(a[1]))))
+                    line = f"reload {t2.shape[1]} {ftab(t2)} {fvec(a[1])}"
                 elif kind == "subset":
                     md.feature_subset(list(a[0]))
                     self.scale_t = [self.scale_t[f] for f in a[0] if f < len(self.scale_t)]
@@ -403,6 +431,9 @@ def _fallback_line(kind, a) -> str:
         return f"append {ftab(a[0])} {fvec(a[1])}"
     if kind == "subset":
         return "subset " + (",".join(map(str, a[0])) if a[0] else "-")
+    if kind == "reload":
+        t2 = np.array(a[0], dtype=float)
+        return f"reload {t2.shape[1]} {ftab(t2)} {fvec(a[1])}"
     if kind == "dedup":
         return f"dedup {frac(a[0])}"
     if kind in ("std_resp", "lowest"):
@@ -525,6 +556,15 @@ def exact_sessions(ctx: Ctx, rng: random.Random, count: int) -> list[Session]:
         s.op("dedup", c)
         if rng.random() < 0.3:
             s.op("dedup", rng.choice(CUTOFFS))
+        if rng.random() < 0.35:
+            # the same object reused for another dataset (other size, other width), then de-duplicated again
+            d2 = rng.randrange(1, 6)
+            n2 = rng.choice([1, 2, 3, 5, 8, 12, 20, 30])
+            c2 = rng.choice(CUTOFFS)
+            s.op("reload", dyadic_clusters(rng, n2, d2, c2), unique_tags(rng, n2, start=200))
+            if rng.random() < 0.4 and d2 >= 2:
+                s.op("subset", rng.sample(range(d2), rng.randrange(1, d2 + 1)))
+            s.op("dedup", c2)
         out.append(s)
     return out
 
@@ -716,6 +756,11 @@ def predicate_exact(T, R, ops: list) -> tuple[str, str] | None:
                 features = list(op[1]) if features is None else [features[f] for f in op[1]]
             elif kind == "dedup":
                 md.remove_duplicates(op[1])
+            elif kind == "reload":
+                T_all, R_all = np.array(op[1], dtype=float), np.array(op[2], dtype=float)
+                reload_md(md, T_all, R_all)
+                features = None
+                present = list(range(len(T_all)))
         except Exception as e:
             if kind == "dedup" and len(present) == 1:
                 return ("remove_duplicates:single-point-dataset", f"remove_duplicates raised {type(e).__name__} on a "
@@ -726,7 +771,10 @@ def predicate_exact(T, R, ops: list) -> tuple[str, str] | None:
             return (f"alignment:{kind}", f"after {kind}: {why}")
         if md.n_dims != (T_all.shape[1] if features is None else len(features)):
             return (f"n_dims:{kind}", f"after {kind}: n_dims = {md.n_dims}")
-        if kind in ("append", "subset"):
+        if md.n_points != len(present if kind != "dedup" else idx):
+            return (f"n_points:{kind}", f"after {kind}: n_points = {md.n_points} but the object holds "
+                    f"{len(present if kind != 'dedup' else idx)} rows")
+        if kind in ("append", "subset", "reload"):
             if idx != present:
                 return (f"alignment:{kind}", f"after {kind}: rows present {idx}, expected {present}")
         else:
@@ -904,6 +952,8 @@ def predicates(ctx: Ctx) -> None:
         ([[0.0, 0.0], [1.5, 2.0], [1.5, 1.9375], [0.0, 0.0]], [1.0, 2.0, 3.0, 4.0], [("dedup", 2.5)]),
         ([[1.0, 2.0]], [3.0], [("append", [[5.0, 6.0]], [7.0]), ("subset", [1]), ("dedup", 0.5)]),
         ([[1.0, 2.0]], [3.0], [("dedup", 0.5)]),
+        ([[7.0]], [0.0], [("reload", [[0.0], [5.0], [5.0]], [1.0, 2.0, 3.0]), ("dedup", 0.125)]),
+        ([[0.0, 1.0], [4.0, 4.0], [8.0, 1.0]], [1.0, 2.0, 3.0], [("subset", [0]), ("reload", [[0.0, 0.0], [0.0, 0.0]], [4.0, 5.0]), ("dedup", 0.5)]),
     ]
     for T, R, ops in corpus:
         r = predicate_exact(T, R, ops)
@@ -926,6 +976,13 @@ def predicates(ctx: Ctx) -> None:
         ops.append(("dedup", c))
         if rng.random() < 0.3:
             ops.append(("dedup", rng.choice(CUTOFFS)))
+        for _k in range(rng.choice([0, 0, 1, 1, 2])):
+            # the object is reused for another dataset: read -> (subset) -> de-duplicate, as the example scripts do
+            d2, n2, c2 = rng.randrange(1, 6), rng.choice([1, 2, 3, 5, 8, 12, 20, 40]), rng.choice(CUTOFFS)
+            ops.append(("reload", dyadic_clusters(rng, n2, d2, c2).tolist(), unique_tags(rng, n2, start=200 * (_k + 1)).tolist()))
+            if rng.random() < 0.4 and d2 >= 2:
+                ops.append(("subset", rng.sample(range(d2), rng.randrange(1, d2 + 1))))
+            ops.append(("dedup", c2))
         r = predicate_exact(T, R, ops)
         ctx.stats.case({"stream": "predicate-exact", "n": n, "d": d, "cutoff": c, "ops": [o[0] for o in ops]}, True)
         if r:
